@@ -195,5 +195,6 @@ func (c *twistPoint) Neg(a *twistPoint) {
 	c.x.Set(&a.x)
 	c.y.Neg(&a.y)
 	c.z.Set(&a.z)
-	c.t.SetZero()
+	// t caches z^2 and the pairing reads it: negation leaves z, hence t, unchanged
+	c.t.Set(&a.t)
 }
